@@ -15,7 +15,7 @@ RULE = ("trees {group of 2, group of 3 with a hard link, two groups, two --isola
         "delete+recreate other bytes, replace by directory, by dangling symlink, by symlink to a fresh file, touch} x "
         "position: the external mutator is interleaved at EVERY event k (file-system read calls and clock reads) of the "
         "recorded `group -t 1` run from the first access to f until process exit (quick: one position per phase), plus "
-        "'between group and dedupe' (the pair tree also with both commands running in time zones UTC+9, UTC-8, UTC+5:30); then each dedupe op {remove, link, link --soft, dedupe, move} and {remove, link, move} x {-n 1, --rf-over 1, --priority newest, --no-lock, --keep-name <matches nothing>} (quick: remove, link, remove -n 1, link --priority newest) "
+        "'between group and dedupe' (the pair tree also with both commands running in time zones UTC+9, UTC-8, UTC+5:30, and with the dedupe command running in another zone than `group`: +9 -> 0, 0 -> -8, -8 -> +9, +5:30 -> +4:30); then each dedupe op {remove, link, link --soft, dedupe, move} and {remove, link, move} x {-n 1, --rf-over 1, --priority newest, --no-lock, --keep-name <matches nothing>} (quick: remove, link, remove -n 1, link --priority newest) "
         "acts on the report that run produced. A state is one complete (group || mutator ; dedupe) execution, "
         "transitions are the events of the group history. Invariant: every content digest held by a regular file just "
         "before the dedupe run is still held by one afterwards (tree + move target); files outside the groups untouched.")
@@ -63,6 +63,12 @@ def cases(tier, seed):
         for f in ("r/a/f1", "r/b/f2"):
             for m in (MUTATIONS if tier == "thorough" else ("rewrite_same_len", "recreate_other", "touch", "to_symlink_fresh")):
                 out.append({"tree": "pair", "f": f, "mutation": m, "tier": tier, "tz": tz})
+    # the dedupe command runs in another time zone than `group` did (report carried to another machine, or the end of
+    # daylight-saving time between the two runs)
+    for tz, tz2 in (("JST-9", "UTC0"), ("UTC0", "PST8"), ("PST8", "JST-9"), ("<+0530>-5:30", "<+0430>-4:30")):
+        for f in ("r/a/f1", "r/b/f2"):
+            for m in (MUTATIONS if tier == "thorough" else ("rewrite_same_len", "recreate_other", "touch")):
+                out.append({"tree": "pair", "f": f, "mutation": m, "tier": tier, "tz": tz, "tz_dedupe": tz2})
     return out
 
 
@@ -138,6 +144,7 @@ def evaluate(case):
             os.makedirs(sc.tree)
             C.make_tree(sc.tree, TREES[case["tree"]])
         tzenv = {"TZ": case["tz"]} if case.get("tz") else None
+        tzenv_d = {"TZ": case["tz_dedupe"]} if case.get("tz_dedupe") else tzenv
         rebuild()
         rec = S.run_with_shim(sc, args, [sc.tree], "rc", env_extra=tzenv)
         rebuild()
@@ -189,15 +196,15 @@ def evaluate(case):
                 subprocess.run(["cp", "-a", snap, sc.tree], check=True)
                 before = C.inventory(sc.tree)
                 opname, _, optk = op.partition("|")
-                r = D.run_dedupe(sc, opname, OPTSETS[optk], report, target=target, env_extra=tzenv)
+                r = D.run_dedupe(sc, opname, OPTSETS[optk], report, target=target, env_extra=tzenv_d)
                 after = C.inventory(sc.tree, target) if os.path.exists(target) else C.inventory(sc.tree)
                 states += 1
-                reached.append([case["tree"], case["f"], case["mutation"], kind, k, op, case.get("tz", "UTC")])
+                reached.append([case["tree"], case["f"], case["mutation"], kind, k, op, case.get("tz", "UTC"), case.get("tz_dedupe", "same")])
                 sb = set(x["sha"] for x in before.values() if x["type"] == "file")
                 sa = set(x["sha"] for x in after.values() if x["type"] == "file")
                 feat = {"mutation": case["mutation"], "phase": phase, "op": op,
                         "target_is_retained_member": case["f"].endswith("f1"), "isolate": case["tree"] in TREE_OPTS,
-                        "timezone": case.get("tz", "UTC")}
+                        "timezone": case.get("tz", "UTC"), "dedupe_in_other_timezone": bool(case.get("tz_dedupe"))}
                 rc_case = dict(case, only=[[kind, k], op])
                 if "panicked" in r["err"] or r["timeout"]:
                     viol.append(dict(feat, kind="crash", detail=r["err"][-300:], replay_case=rc_case))
